@@ -410,6 +410,8 @@ class Check:
         self.replays_ok = 0
         self.extra = {}
         self.hard_incomplete = False
+        # replay artefacts of earlier runs of this property are stale: start from an empty out/<ID>/
+        shutil.rmtree(os.path.join(VERIF, "out", prop), ignore_errors=True)
 
     def add_run(self, name, results, meta, expect_covers=()):
         if results is None:
